@@ -1310,6 +1310,59 @@ fn set_iteration(loc: &mut Local) {
                     vio(loc, "WeekdaySet::iter", "wrong-order-through-adaptors", json!({"set": model_json(&m), "start": start, "expected": order, "collect": f, "rev_collect": r, "count": c}));
                 }
             }
+            // the provided Iterator methods an implementation may override: each must agree with stepping
+            loc.eval();
+            if let Some(obs) = loc.call("WeekdaySetIter::provided-methods", || json!({"set": model_json(&m), "start": start}), || {
+                let s = build(&m);
+                let it = || s.iter(WD[start]);
+                let nths: Vec<Option<usize>> = (0..9).map(|k| it().nth(k).map(wd_idx)).collect();
+                let nth_backs: Vec<Option<usize>> = (0..9).map(|k| it().nth_back(k).map(wd_idx)).collect();
+                (
+                    it().last().map(wd_idx),
+                    it().rev().last().map(wd_idx),
+                    it().count(),
+                    it().size_hint(),
+                    nths,
+                    nth_backs,
+                    it().fold(Vec::new(), |mut v, d| {
+                        v.push(wd_idx(d));
+                        v
+                    }),
+                    it().rfold(Vec::new(), |mut v, d| {
+                        v.push(wd_idx(d));
+                        v
+                    }),
+                    (it().map(wd_idx).min(), it().map(wd_idx).max()),
+                    {
+                        // after skipping one from each end
+                        let mut j = it();
+                        let (_a, _b) = (j.next(), j.next_back());
+                        let l = j.len();
+                        (j.last().map(wd_idx), l)
+                    },
+                )
+            }) {
+                let mut rev = order.clone();
+                rev.reverse();
+                let exp_nth: Vec<Option<usize>> = (0..9).map(|k| order.get(k).copied()).collect();
+                let exp_nthb: Vec<Option<usize>> = (0..9).map(|k| rev.get(k).copied()).collect();
+                let inner: Vec<usize> = if n >= 2 { order[1..n - 1].to_vec() } else { vec![] };
+                let (last, rlast, count, hint, nths, nthbs, fold, rfold, minmax, after) = obs;
+                let ok = last == order.last().copied()
+                    && rlast == order.first().copied()
+                    && count == n
+                    // (size_hint is the default (0, None) on the pinned tree; the property does not speak of it)
+                    && hint.0 <= n && hint.1.map_or(true, |h| h >= n)
+                    && nths == exp_nth
+                    && nthbs == exp_nthb
+                    && fold == order
+                    && rfold == rev
+                    && minmax == (members(&m).first().copied(), members(&m).last().copied())
+                    && after.0 == inner.last().copied();
+                if !ok {
+                    vio(loc, "WeekdaySetIter", "provided-iterator-method-disagrees-with-stepping", json!({"set": model_json(&m), "start": start, "order": order, "last": last, "rev_last": rlast, "count": count, "size_hint": [hint.0, hint.1.unwrap_or(99)], "nth": nths, "nth_back": nthbs, "fold": fold, "rfold": rfold, "after_one_from_each_end_last": after.0}));
+                }
+            }
         }
     }
     loc.sample(|| json!({"part": "iteration", "set": ["Mon", "Wed", "Fri"], "start": "Wed", "observed": build(&model_of(0b0010101)).iter(Weekday::Wed).take(8).map(|d| d.to_string()).collect::<Vec<_>>(), "expected": ["Wed", "Fri", "Mon"]}));
